@@ -256,6 +256,18 @@ func (env *SpecEnv) ident(name string) (SpecVal, error) {
 	if v, ok := env.vars[name]; ok {
 		return v, nil
 	}
+	// inside an inlined closure of the function under contract: a variable of the
+	// enclosing function that the closure itself does not capture
+	if !env.callee && !env.lemma {
+		for p := x.parent; p != nil; p = p.parent {
+			if p.fn == nil || p.cur == nil {
+				continue
+			}
+			if v, ok := p.specEnvAt(p.cur, nil).vars[name]; ok {
+				return v, nil
+			}
+		}
+	}
 	if env.pkg != nil {
 		if obj := env.pkg.Scope().Lookup(name); obj != nil {
 			if c, ok := obj.(*types.Const); ok {
